@@ -961,6 +961,11 @@ func c16(r *h.Result, rng *h.Rng, tier string, replay string) error {
 		if i%50 == 0 {
 			r.Sample(map[string]any{"stream": "stored", "types": p.Types, "samples": len(p.Samples), "mode": p.Mode})
 		}
+		if i%1000 == 999 {
+			if err := c16Flush(r, &ops, &impl, &cases); err != nil {
+				return err
+			}
+		}
 	}
 	mr := rng.Fork()
 	for i := 0; i < nMerges; i++ {
@@ -977,10 +982,27 @@ func c16(r *h.Result, rng *h.Rng, tier string, replay string) error {
 		if i%40 == 0 {
 			r.Sample(map[string]any{"stream": "merge", "profiles": len(m.Profiles), "type": m.Profiles[0].Types[m.Type], "orders": m.Orders})
 		}
+		if i%100 == 99 {
+			if err := c16Flush(r, &ops, &impl, &cases); err != nil {
+				return err
+			}
+		}
 	}
-	c16Ext(r, rng, tier, &ops, &impl, &cases)
+	if err := c16Flush(r, &ops, &impl, &cases); err != nil {
+		return err
+	}
+	if err := c16Ext(r, rng, tier, &ops, &impl, &cases); err != nil {
+		return err
+	}
 	// run the model in chunks (one driver process per chunk)
 	return c16Compare(r, ops, impl, cases)
+}
+
+// compare what has been collected so far and drop it (the operations of a thorough run do not fit in memory together)
+func c16Flush(r *h.Result, ops, impl *[]string, cases *[]any) error {
+	err := c16Compare(r, *ops, *impl, *cases)
+	*ops, *impl, *cases = nil, nil, nil
+	return err
 }
 
 // run the model in chunks (one driver process per chunk), disagreements attributed to the stream of the operation
